@@ -577,6 +577,19 @@ func ruleC04_5(c *Ctx) {
 				})
 				c.check(okG, "OnSOpened: READONLY exactly on replica connections", c.at(pt.pos), "s.IsSlave()", "READONLY is not guarded by s.IsSlave(): replica connections would refuse reads (MOVED) or masters get a pointless command", withGuards(gs))
 			}
+			// the two parts are independent: READONLY does not depend on the password test and AUTH not on the role
+			cross := ""
+			for _, g := range guardsAtRaw(pt.block) {
+				e := expr(g.Cond)
+				if pt.name == "READONLY" && strings.Contains(e, "server.authCmd") {
+					cross = g.String()
+				}
+				if pt.name == "AUTH" && strings.Contains(e, "IsSlave") {
+					cross = g.String()
+				}
+			}
+			c.check(cross == "", "OnSOpened: "+pt.name+" does not depend on the other part", c.at(pt.pos), "independent conditions",
+				"the "+pt.name+" part of the handshake is sent only under "+cross+" (e.g. AUTH and READONLY as alternative cases of one switch): with a password configured replica connections get no READONLY, every replica answers reads with -MOVED and the master serves them all")
 		}
 		_ = isSlave
 		c.check(len(parts) == 2, "OnSOpened: handshake parts", p.pos(so.Pos()), "AUTH and READONLY", fmt.Sprintf("expected the AUTH and READONLY parts, found %d", len(parts)))
@@ -918,6 +931,33 @@ func ruleC20_3(c *Ctx) {
 	})
 	c.examined(len(route.Blocks))
 	c.check(resets == 1, "route: candidate list reset", p.pos(route.Pos()), "one reset", fmt.Sprintf("expected one reset of liveSlaves per call, found %d: candidates of earlier requests (other slots) leak into this pick", resets))
+	// every element of the list that is returned was put there by this call: the reset dominates every read of an element
+	var reset ssa.Instruction
+	allInstrs(route, func(in ssa.Instruction) {
+		if st, ok := in.(*ssa.Store); ok && st.Addr == ssa.Value(ls) {
+			if sl, ok := st.Val.(*ssa.Slice); ok && sl.High != nil && isZero(sl.High) {
+				reset = in
+			}
+		}
+	})
+	stale := ""
+	allInstrs(route, func(in ssa.Instruction) {
+		ia, ok := in.(*ssa.IndexAddr)
+		if !ok {
+			return
+		}
+		if ld, ok := strip(ia.X).(*ssa.UnOp); ok && ld.X == ssa.Value(ls) {
+			if reset == nil || !dominatesInstr(reset, in) {
+				stale = c.at(in)
+			}
+		}
+	})
+	pos := p.pos(route.Pos())
+	if stale != "" {
+		pos = stale
+	}
+	c.check(stale == "", "route: a candidate is picked only from this call's list", pos, "the reset dominates every liveSlaves[i]",
+		"an element of the candidate list is read on a path that did not rebuild the list for this slot (e.g. a per-request cache keyed by Msg.Id): the second fragment of an MGET is sent to a replica of the first fragment's replica set")
 	if appends == 0 {
 		c.undecided("route: candidates", p.pos(route.Pos()), "no append to liveSlaves found")
 	}
